@@ -185,3 +185,64 @@ def terms_equal(a, b, q, name):
         r, m = q.check(name, [a2 != b2], timeout_s=60)
         return r, m
     return ('same' if a == b else 'sat'), None
+
+
+# ---------------------------------------------------------------- path forking for data-dependent branches
+
+def explore(fn, q, max_paths=64, feas_timeout=20):
+    """Run ``fn`` (real code over z3 terms) once per feasible combination of the data-dependent branches it takes.
+
+    z3's BoolRef.__bool__ silently answers a structural comparison for ``a == b`` (False for different terms) and raises for
+    anything else; here every non-constant condition becomes a decision: if the path condition entails it (or its negation) that value
+    is taken, otherwise both sides are explored by re-execution.  Returns (paths, complete) with paths = [(path_condition, result)]."""
+    results = []
+    work = [[]]
+    orig = z3.BoolRef.__bool__
+    while work and len(results) < max_paths:
+        prefix = work.pop()
+        trace = []
+
+        def decide(cond):
+            if z3.is_true(cond):
+                return True
+            if z3.is_false(cond):
+                return False
+            if z3.is_eq(cond) and cond.num_args() == 2 and cond.arg(0).eq(cond.arg(1)):
+                return True
+            if z3.is_distinct(cond) and cond.num_args() == 2 and cond.arg(0).eq(cond.arg(1)):
+                return False
+            i = len(trace)
+            if i < len(prefix):
+                v = prefix[i]
+            else:
+                pc = [c if d else z3.Not(c) for c, d in trace]
+                rt, _ = q.check('feasibility', pc + [cond], timeout_s=feas_timeout)
+                rf, _ = q.check('feasibility', pc + [z3.Not(cond)], timeout_s=feas_timeout)
+                can_t, can_f = rt != 'unsat', rf != 'unsat'
+                if can_t and can_f:
+                    v = True
+                    work.append([d for _, d in trace] + [False])
+                elif can_t:
+                    v = True
+                else:
+                    v = False
+            trace.append((cond, v))
+            return v
+        z3.BoolRef.__bool__ = lambda self: decide(self)
+        try:
+            res = fn()
+        finally:
+            z3.BoolRef.__bool__ = orig
+        results.append(([c if d else z3.Not(c) for c, d in trace], res))
+    return results, not work
+
+
+def equal_under(pc, a, b, q, name):
+    """a == b for all values satisfying the path condition: 'same' | 'unsat' | 'sat' | 'unknown'"""
+    if isinstance(a, z3.ExprRef) and isinstance(b, z3.ExprRef) and a.eq(b):
+        return 'same', None
+    if not isinstance(a, z3.ExprRef) and not isinstance(b, z3.ExprRef):
+        return ('same' if a == b else 'sat'), None
+    a2 = a if isinstance(a, z3.ExprRef) else z3.RealVal(a)
+    b2 = b if isinstance(b, z3.ExprRef) else z3.RealVal(b)
+    return q.check(name, list(pc) + [a2 != b2], timeout_s=60)
